@@ -144,17 +144,39 @@ package gtfs
 
 //@ pure func csvOK(f *csv.File) bool = csv.fileOK(f)
 
+// p is a non-nil element of agencies
+//@ pure func agencyElem(p *Agency, agencies []Agency) bool = p != nil && obj(p) == obj(agencies) && off(agencies) <= idx(p) && idx(p) < off(agencies) + len(agencies) && p == &agencies[idx(p) - off(agencies)]
+// the route a routes.txt row is transcribed to (C01), with the GTFS colour defaults (C10) and the agency rule (C03):
+// the agency named by agency_id, or the only agency when the cell is blank
+//@ pure func routeFaithful(e Route, f *csv.File, agencies []Agency) bool = e.Id == col(f, "route_id") && agencyElem(e.Agency, agencies) && (col(f, "agency_id") != "" ==> e.Agency.Id == col(f, "agency_id")) && (col(f, "agency_id") == "" ==> len(agencies) == 1 && e.Agency == &agencies[0]) && e.Color == orDefault(col(f, "route_color"), "FFFFFF") && e.TextColor == orDefault(col(f, "route_text_color"), "000000") && e.ShortName == col(f, "route_short_name") && e.LongName == col(f, "route_long_name") && e.Description == col(f, "route_desc") && e.Url == col(f, "route_url") && e.Type == parseRouteType_GTFSStatic(col(f, "route_type")) && e.ContinuousPickup == parsePickupDropOffPolicy(col(f, "continuous_pickup")) && e.ContinuousDropOff == parsePickupDropOffPolicy(col(f, "continuous_drop_off")) && (col(f, "route_sort_order") == "" ==> e.SortOrder == nil)
+
 //@ func parseRoutes
 //@   props C01 C03 C05 C08 C09 C10
 //@   requires csvOK(csv)
-//@   loop 1 invariant csvOK(csv)
+//@   ensures [agency-is-an-element-of-agencies] forall j int :: 0 <= j && j < len(result) ==> agencyElem(result[j].Agency, agencies)
+//@   loop 1 invariant csvOK(csv) && csv.csvReader == old(csv.csvReader) && fresh(routes)
+//@   loop 1 invariant [agency-is-an-element-of-agencies] forall j int :: 0 <= j && j < len(routes) ==> agencyElem(routes[j].Agency, agencies)
+//@   loop 1 step [at-most-one-route-per-row] len(routes) == athead(1, len(routes)) || len(routes) == athead(1, len(routes)) + 1
+//@   loop 1 step [appended-route-is-faithful] len(routes) == athead(1, len(routes)) + 1 ==> routeFaithful(routes[len(routes) - 1], csv, agencies) && col(csv, "route_id") != "" && col(csv, "route_type") != ""
+//@   loop 1 step [blank-required-cell-rejects] col(csv, "route_id") == "" || col(csv, "route_type") == "" ==> len(routes) == athead(1, len(routes))
+//@   loop 1 step [unknown-agency-rejects] col(csv, "agency_id") != "" && (forall k int :: 0 <= k && k < len(agencies) ==> agencies[k].Id != col(csv, "agency_id")) ==> len(routes) == athead(1, len(routes))
+//@   loop 1 step [only-agency-is-the-default] col(csv, "agency_id") == "" && len(agencies) == 1 && col(csv, "route_id") != "" && col(csv, "route_type") != "" ==> len(routes) == athead(1, len(routes)) + 1
+//@   loop 1 step [named-agency-accepts] forall k int :: 0 <= k && k < len(agencies) && agencies[k].Id == col(csv, "agency_id") && col(csv, "agency_id") != "" && col(csv, "route_id") != "" && col(csv, "route_type") != "" ==> len(routes) == athead(1, len(routes)) + 1
+//@   loop 1 step [earlier-routes-kept] forall k int :: 0 <= k && k < athead(1, len(routes)) ==> routes[k] == athead(1, routes[k])
 //@   loop 1 decreases remaining(csv.csvReader)
-//@   loop 2 invariant 0 <= 0
+//@   loop 2 invariant agency == nil && (forall k int :: 0 <= k && k < $i ==> agencies[k].Id != agencyID)
+
+// the agency an agency.txt row is transcribed to; a blank or absent agency_id becomes "<name>_id" (documented fallback)
+//@ pure func agencyFaithful(e Agency, f *csv.File) bool = e.Name == col(f, "agency_name") && e.Url == col(f, "agency_url") && e.Timezone == col(f, "agency_timezone") && e.Language == col(f, "agency_lang") && e.Phone == col(f, "agency_phone") && e.FareUrl == col(f, "agency_fare_url") && e.Email == col(f, "agency_email") && (col(f, "agency_id") != "" ==> e.Id == col(f, "agency_id"))
 
 //@ func parseAgencies
 //@   props C01 C05 C08 C09
 //@   requires csvOK(csv)
-//@   loop 1 invariant csvOK(csv)
+//@   loop 1 invariant csvOK(csv) && csv.csvReader == old(csv.csvReader) && fresh(agencies) && fresh(w)
+//@   loop 1 step [no-missing-key-means-all-required-cells-present] len(csv.currentRow.missingKeys) == 0 ==> col(csv, "agency_name") != "" && col(csv, "agency_url") != "" && col(csv, "agency_timezone") != ""
+//@   loop 1 step [row-without-missing-keys-is-appended] len(csv.currentRow.missingKeys) == 0 ==> len(agencies) == athead(1, len(agencies)) + 1 && agencyFaithful(agencies[len(agencies) - 1], csv) && len(w) == athead(1, len(w))
+//@   loop 1 step [row-with-missing-keys-is-inert-and-warned] len(csv.currentRow.missingKeys) > 0 ==> len(agencies) == athead(1, len(agencies)) && len(w) == athead(1, len(w)) + 1 && w[len(w) - 1].File == csv.name && w[len(w) - 1].RowNumber == csv.rowNumber
+//@   loop 1 step [earlier-agencies-kept] forall k int :: 0 <= k && k < athead(1, len(agencies)) ==> agencies[k] == athead(1, agencies[k])
 //@   loop 1 decreases remaining(csv.csvReader)
 
 //@ func checkForMissingColumns
@@ -198,11 +220,25 @@ package gtfs
 //@   loop 4 step [unspecified-takes-the-parent-stations-value] stops[i].WheelchairBoarding == ((athead(4, stops[i].WheelchairBoarding) == WheelchairBoarding_NotSpecified && stops[i].Parent != nil && athead(4, stops[i].Parent.Type) == StopType_Station) ? athead(4, stops[i].Parent.WheelchairBoarding) : athead(4, stops[i].WheelchairBoarding))
 //@   loop 4 step [nothing-else-changes] forall k int :: 0 <= k && k < len(stops) ==> (k != i ==> stops[k] == athead(4, stops[k])) && stops[k].Id == athead(4, stops[k].Id) && stops[k].Parent == athead(4, stops[k].Parent) && stops[k].Type == athead(4, stops[k].Type) && stops[k].Name == athead(4, stops[k].Name)
 
+// p is a non-nil element of stops
+//@ pure func stopElem(p *Stop, stops []Stop) bool = p != nil && obj(p) == obj(stops) && off(stops) <= idx(p) && idx(p) < off(stops) + len(stops) && p == &stops[idx(p) - off(stops)]
+// a transfers.txt row is accepted iff both required cells are present, both stops exist and they differ (C09)
+//@ pure func trAccepted(f *csv.File, m ?) bool = col(f, "from_stop_id") != "" && col(f, "to_stop_id") != "" && has(m, col(f, "from_stop_id")) && has(m, col(f, "to_stop_id")) && col(f, "from_stop_id") != col(f, "to_stop_id")
+//@ pure func trFaithful(e Transfer, f *csv.File, m ?) bool = e.From == m[col(f, "from_stop_id")] && e.To == m[col(f, "to_stop_id")] && e.Type == parseTransferType(col(f, "transfer_type")) && (col(f, "min_transfer_time") == "" ==> e.MinTransferTime == nil)
+//@ pure func trAppended(ts []Transfer, n0 int, f *csv.File, m ?) bool = len(ts) == n0 + 1 && trFaithful(ts[len(ts) - 1], f, m)
+
 //@ func parseTransfers
 //@   props C01 C03 C05 C08 C09 C10
 //@   requires csvOK(csv)
-//@   loop 1 invariant stopIdToStop != nil && (forall k string :: has(stopIdToStop, k) ==> stopIdToStop[k] != nil)
-//@   loop 2 invariant csvOK(csv)
+//@   ensures [endpoints-are-elements-of-stops] forall j int :: 0 <= j && j < len(result) ==> stopElem(result[j].From, stops) && stopElem(result[j].To, stops)
+//@   loop 1 invariant stopIdToStop != nil && fresh(stopIdToStop) && (forall k string :: has(stopIdToStop, k) ==> stopIn(stopIdToStop[k], stops, k))
+//@   loop 2 invariant csvOK(csv) && csv.csvReader == old(csv.csvReader) && stopIdToStop != nil && fresh(transfers)
+//@   loop 2 invariant [stops-by-id] forall k string :: has(stopIdToStop, k) ==> stopIn(stopIdToStop[k], stops, k)
+//@   loop 2 invariant [endpoints-are-elements-of-stops] forall j int :: 0 <= j && j < len(transfers) ==> stopElem(transfers[j].From, stops) && stopElem(transfers[j].To, stops)
+//@   loop 2 step [blank-required-cell-iff-a-missing-key-is-recorded] (col(csv, "from_stop_id") == "" || col(csv, "to_stop_id") == "") == (len(csv.currentRow.missingKeys) > 0)
+//@   loop 2 step [accepted-row-is-appended] trAccepted(csv, stopIdToStop) ==> trAppended(transfers, athead(2, len(transfers)), csv, stopIdToStop)
+//@   loop 2 step [rejected-row-is-inert] !trAccepted(csv, stopIdToStop) ==> len(transfers) == athead(2, len(transfers))
+//@   loop 2 step [earlier-transfers-kept] forall k int :: 0 <= k && k < athead(2, len(transfers)) ==> transfers[k] == athead(2, transfers[k])
 //@   loop 2 decreases remaining(csv.csvReader)
 
 // a calendar row is accepted iff both dates parse and no required cell was found blank. (The seven weekday columns are
@@ -791,6 +827,7 @@ package gtfs
 //@ func ParseStatic$2
 //@   props C01 C03 C05
 //@   requires file != nil && csvOK(file) && result != nil
+//@   ensures [agency-is-an-element-of-agencies] forall j int :: 0 <= j && j < len(result.Routes) ==> agencyElem(result.Routes[j].Agency, result.Agencies)
 //@ func ParseStatic$3
 //@   props C01 C03 C05 C10
 //@   requires file != nil && csvOK(file) && result != nil
@@ -798,6 +835,7 @@ package gtfs
 //@ func ParseStatic$4
 //@   props C01 C03 C05
 //@   requires file != nil && csvOK(file) && result != nil
+//@   ensures [endpoints-are-elements-of-stops] forall j int :: 0 <= j && j < len(result.Transfers) ==> stopElem(result.Transfers[j].From, result.Stops) && stopElem(result.Transfers[j].To, result.Stops)
 //@ func ParseStatic$5
 //@   props C01 C05 C11
 //@   requires file != nil && csvOK(file) && serviceIdToService != nil && (forall id string :: has(serviceIdToService, id) ==> len(serviceIdToService[id].AddedDates) == 0 && cap(serviceIdToService[id].AddedDates) == 0 && len(serviceIdToService[id].RemovedDates) == 0 && cap(serviceIdToService[id].RemovedDates) == 0)
